@@ -170,6 +170,7 @@ type Stats struct {
 	Assertions      int
 	DomainDecided   int
 	IntervalDecided int
+	StaleModels     int
 }
 
 type undoRec struct {
